@@ -113,7 +113,7 @@ func run(c *mc.Ctx, u mc.Unit) {
 			}
 		}
 	}
-	if err := w.CheckL1(ctx, st); err != nil {
+	if err := w.CheckL1(ctx, st, false); err != nil {
 		c.Failf("world-sanity/l1-store-differs-from-reference", "%s: %v", scen, err)
 		return
 	}
@@ -333,7 +333,12 @@ func main() {
 	mc.Main(mc.Spec{
 		ID: "C12", Level: "exploration",
 		Units: func(tier string) []mc.Unit { return certworld.UnitsOf(families(tier)) },
-		Batch: func(string) int { return 150 },
+		Batch: func(tier string) int {
+			if tier == "thorough" {
+				return 400
+			}
+			return 150
+		},
 		Run:   run,
 		Setup: func(string) { kit.Quiet(); gin.SetMode(gin.ReleaseMode) },
 		Rule: "unit = one scenario (operation sequence of a world family: all sequences up to the length bound, de-duplicated by the " +
